@@ -57,6 +57,8 @@ type Exec struct {
 	inlineGuard  Term
 	defMap       map[string]string
 	callN        map[string]int
+	assertN      int
+	assertSeen   map[string]int
 }
 
 var defaultSafety = map[string]bool{"idx": true, "slice": true, "div0": true, "ovf": true, "make-neg": true, "assert-type": true}
